@@ -17,8 +17,12 @@
     * `order`              — `ReverseTopologicalOrdering` (modelled by another property: given)
   Assumptions made by the model (recorded in props/C14.py): the context is never cancelled, the
   EventProvider handed to VerifyEventAuthChain / CheckStateResponse answers as a function of the
-  requested IDs (stateless), `VerifyAllEventSignatures` returns one answer per event (it does:
-  eventcrypto.go appends exactly one per event).
+  requested IDs (stateless; `handedOut` reads what it returned off the requests), `VerifyAllEventSignatures`
+  returns one answer per event (it does: eventcrypto.go appends exactly one per event).
+
+  Mirrors the code after the repairs of findings R1 (VerifyAuthRulesAtState: the WHOLE returned state is
+  added to the provider), R2 (VerifyEventAuthChain: what the single-ID retry of checkAllowedByAuthEvents
+  fetches is pushed on the verification stack) and R3 (CheckStateResponse: failures per event, not per ID).
 
   The Go maps `eventsByID` (ID ↦ event-or-nil) are association lists with the newest binding in front;
   only lookups by key are performed on them, so iteration order never matters.
@@ -145,25 +149,29 @@ def checkStateTuples : List Event → List (Bytes × Bytes) → Bool
     | none => false
     | some sk => if seen.contains (e.type, sk) then false else checkStateTuples es ((e.type, sk) :: seen)
 
-/-- IDs whose signature check failed (`failures` after the signature pass) -/
-def sigFailIDs {P} (O : Oracles P) (all : List Event) : List Bytes :=
-  (all.filter (fun e => !O.sigOk e)).map (·.eventID)
-
-/-- `eventsByID` after "Collect a map of event reference to event": every event whose ID is not among
-    the failures, later ones overwriting earlier ones with the same ID. -/
+/-- `eventsByID` after "Collect a map of event reference to event": every event whose OWN signature check
+    passed (`!failed[i]`), later ones overwriting earlier ones with the same ID. -/
 def verifiedMap {P} (O : Oracles P) (all : List Event) : IdMap :=
-  ((all.filter (fun e => !(sigFailIDs O all).contains e.eventID)).map (fun e => (e.eventID, some e))).reverse
+  ((all.filter (fun e => O.sigOk e)).map (fun e => (e.eventID, some e))).reverse
 
 /-- "Check whether the events are allowed by the auth rules": ONE shared `eventsByID` for all events.
-    Returns `none` when a retry loop ran out of fuel. -/
+    Returns, per event (position in `allEvents`), whether checkAllowedByAuthEvents accepted it;
+    `none` when a retry loop ran out of fuel. -/
 def authLoop {P} (O : Oracles P) (prov : Option EventProvider) (fuel : Nat) :
-    List Event → IdMap → Log → List Bytes → Option (List Bytes × IdMap × Log)
-  | [], m, log, failed => some (failed, m, log)
-  | e :: es, m, log, failed =>
+    List Event → IdMap → Log → Option (List Bool × IdMap × Log)
+  | [], m, log => some ([], m, log)
+  | e :: es, m, log =>
     match checkAllowed O prov fuel e m log with
-    | (.ok, m', log') => authLoop O prov fuel es m' log' failed
     | (.outOfFuel, _, _) => none
-    | (_, m', log') => authLoop O prov fuel es m' log' (failed ++ [e.eventID])
+    | (v, m', log') =>
+      match authLoop O prov fuel es m' log' with
+      | none => none
+      | some (oks, m'', log'') => some ((v == .ok) :: oks, m'', log'')
+
+/-- `keep(events, offset)`: the events whose flag is set (flags are per position) -/
+def keepBy : List Event → List Bool → List Event
+  | e :: es, b :: bs => if b then e :: keepBy es bs else keepBy es bs
+  | _, _ => []
 
 inductive SROut where
   | ok (auth state : List Event)
@@ -172,16 +180,19 @@ inductive SROut where
   deriving Inhabited
 
 /-- `CheckStateResponse` on the already-parsed lists (`UntrustedEvents` applied by the caller of this
-    function: see `checkStateResponseRaw`). -/
+    function: see `checkStateResponseRaw`).  `failed[i]` = the signature check of event i failed or
+    checkAllowedByAuthEvents refused it: failures are per EVENT (position in `allEvents` = auth events
+    followed by state events), not per event ID. -/
 def checkStateResponse {P} (O : Oracles P) (prov : Option EventProvider) (fuel : Nat)
     (A S : List Event) (log : Log) : SROut × Log :=
   if A.any (fun e => e.stateKey.isNone) then (.error, log)
   else if !checkStateTuples S [] then (.error, log)
   else
-    match authLoop O prov fuel (A ++ S) (verifiedMap O (A ++ S)) log (sigFailIDs O (A ++ S)) with
+    match authLoop O prov fuel (A ++ S) (verifiedMap O (A ++ S)) log with
     | none => (.outOfFuel, log)
-    | some (failed, _, log') =>
-      (.ok (A.filter (fun e => !failed.contains e.eventID)) (S.filter (fun e => !failed.contains e.eventID)), log')
+    | some (oks, _, log') =>
+      let keep := List.zipWith (fun e ok => O.sigOk e && ok) (A ++ S) oks
+      (.ok (keepBy A (keep.take A.length)) (keepBy S (keep.drop A.length)), log')
 
 def checkStateResponseRaw {P} (O : Oracles P) (prov : Option EventProvider) (fuel : Nat)
     (A S : List Parsed) (log : Log) : SROut × Log :=
@@ -261,8 +272,22 @@ inductive ChainStep where
   | done (r : ChainOut) (log : Log)
   | cont (st : ChainSt) (log : Log)
 
+/-- the events the provider handed out in the calls of a log.  The provider is stateless (its answers are a
+    function of the request: assumption recorded in props/C14.py), so what it returned can be read off the
+    requests. -/
+def handedOut (prov : EventProvider) : Log → List Event
+  | [] => []
+  | .events ids :: r =>
+    (match prov ids with
+     | .events es => es
+     | .error => []) ++ handedOut prov r
+  | _ :: r => handedOut prov r
+
 /-- `caFuel` is the fuel of the retry loops inside checkAllowedByAuthEvents.
-    `append(eventsToVerify, newEvents...)` makes the LAST new event the top of the stack. -/
+    `append(eventsToVerify, newEvents...)` makes the LAST new event the top of the stack.
+    checkAllowedByAuthEvents is handed `fetchAndVerify`: the caller's provider, which ALSO appends whatever it
+    returns to `eventsToVerify` — so the events obtained by the single-ID retries (`handedOut` of the calls
+    checkAllowedByAuthEvents made) lie above the batch-fetched ones on the stack, the last one on top. -/
 def chainStep {P} (O : Oracles P) (prov : EventProvider) (caFuel : Nat) (st : ChainSt) (log : Log) : ChainStep :=
   match st.stack with
   | [] => .done .ok log
@@ -272,11 +297,12 @@ def chainStep {P} (O : Oracles P) (prov : EventProvider) (caFuel : Nat) (st : Ch
       match fetchNeeded prov (needOf st.m curr) log with
       | none => .done .provErr (log ++ [.events (needOf st.m curr)])
       | some (newEvents, log1) =>
-        match checkAllowed O (some prov) caFuel curr (putAll newEvents st.m) log1 with
-        | (.ok, m2, log2) =>
-          .cont { stack := newEvents.reverse ++ rest, m := m2, verified := curr.eventID :: st.verified } log2
-        | (.outOfFuel, _, log2) => .done .outOfFuel log2
-        | (_, _, log2) => .done .authFail log2
+        match checkAllowed O (some prov) caFuel curr (putAll newEvents st.m) [] with
+        | (.ok, m2, calls) =>
+          .cont { stack := (handedOut prov calls).reverse ++ newEvents.reverse ++ rest, m := m2,
+                  verified := curr.eventID :: st.verified } (log1 ++ calls)
+        | (.outOfFuel, _, calls) => .done .outOfFuel (log1 ++ calls)
+        | (_, _, calls) => .done .authFail (log1 ++ calls)
 
 /-- the loop; one unit of `fuel` per iteration -/
 def chainLoop {P} (O : Oracles P) (prov : EventProvider) (caFuel : Nat) : Nat → ChainSt → Log → ChainOut × Log
@@ -303,20 +329,22 @@ inductive ASOut where
   | ok
   | idsErr
   | stateErr
-  | notAllowed        -- checkAllowedByAuthEvents failed (refused, or a referenced state entry is not a state event)
-  | outOfFuel
+  | notAllowed        -- refused by the state (or an entry of the state is not a state event)
+  | outOfFuel         -- (no longer produced: the slow path has no retry loop)
   deriving DecidableEq, Repr, Inhabited
 
-/-- the slow path: "fetch the events at this state and check auth" (no EventProvider: the retry label
-    is never taken, one unit of fuel per ID suffices) -/
+/-- the slow path: "fetch the events at this state and check auth": EVERY event of the returned state is
+    added to a fresh `AuthEvents` provider (an event without a state key makes `AddEvent` fail: refused), then
+    `Allowed`.  `kvs` lists the returned `map[string]PDU` in the order the Go loop happens to visit it; for a
+    state (no two events in one (type, state_key) slot) the resulting provider answers every lookup alike
+    whatever the order. -/
 def atStateSlow {P} (O : Oracles P) (sp : StateProvider) (e : Event) (ids : List Bytes) (log : Log) : ASOut × Log :=
   match sp.state e ids with
   | none => (.stateErr, log ++ [.state e.eventID])
   | some kvs =>
-    match checkAllowed O none 1 e (kvs.map (fun kv => (kv.1, some kv.2))) (log ++ [.state e.eventID]) with
-    | (.ok, _, log3) => (.ok, log3)
-    | (.outOfFuel, _, log3) => (.outOfFuel, log3)
-    | (_, _, log3) => (.notAllowed, log3)
+    match addAll O (kvs.map (·.2)) O.empty with
+    | none => (.notAllowed, log ++ [.state e.eventID])
+    | some p => (if O.allowedBy e p then .ok else .notAllowed, log ++ [.state e.eventID])
 
 def verifyAuthRulesAtState {P} (O : Oracles P) (sp : StateProvider) (e : Event) (allowValidation : Bool)
     (log : Log) : ASOut × Log :=
